@@ -181,6 +181,14 @@ static Case gen_c08()
   long len = g::coin(60) ? g::range(0, 200) : g::range(0, 1025);
   if (g::coin(30))
     len = 64 * g::range(0, 8) + g::oneof<long>({55, 56, 57, 63, 0, 1, 119, 120}) % 64;
+  bool longmsg = g::coin(6);
+  if (longmsg)
+  {
+    // the inner hash sees 64 + len - pos bytes: lengths around the points where its bit count needs a 3rd / 4th
+    // byte (2^16, 2^24 bits), and arbitrary lengths in between
+    long k2 = g::range(0, 100);
+    len = k2 < 35 ? 8192 - 64 + g::range(-70, 71) : k2 < 55 ? 65536 - 64 + g::range(-70, 71) : k2 < 95 ? g::range(1025, 200001) : (1 << 21) - 64 + g::range(-2, 3);
+  }
   c.seti("len", len);
   c.seti("pos", g::coin(40) ? 0 : g::range(0, 65));
   int refill = (int)g::oneof<long>({1, 2, 3, 5, 8, 16});
@@ -188,7 +196,7 @@ static Case gen_c08()
   c.set("pseed", std::to_string(g::u64()));
   c.seti("pstyle", 0);
   c.seti("bit", g::range(0, 256));
-  c.seti("allbits", g::coin(10) ? 1 : 0);
+  c.seti("allbits", g::coin(10) && !longmsg ? 1 : 0);
   if (c.get("kind") == "write")
   {
     c.seti("hash_mark", g::coin(50) ? 48 : g::range(0, 100));
@@ -217,6 +225,24 @@ static void fixed_c08(Ctx &ctx)
       c.set("pseed", std::to_string(len * 13 + hm));
       c.seti("pstyle", 0);
       c.seti("allbits", len % 8 == 0);
+      eval_fixed(*p, ctx, c);
+    }
+  // bit-count thresholds of the inner hash (64 + len bytes): 2^16 and 2^24 bits
+  for (int hm = 0; hm < 3; hm++)
+    for (long len : {8127L, 8128L, 8129L, 8192L, 65471L, 65472L, 65473L, 70000L, 2097087L, 2097088L, 2097089L})
+    {
+      if (!mine(ctx, i++))
+        continue;
+      Case c;
+      c.set("kind", "msg");
+      c.seti("hmode", hm);
+      c.setb("key", expand(len + 1, 16, 0));
+      c.seti("len", len);
+      c.seti("pos", 0);
+      c.seti("refill", std::min(16, wapi::refill_capacity()));
+      c.set("pseed", std::to_string(len * 13 + hm));
+      c.seti("pstyle", 0);
+      c.seti("allbits", 0);
       eval_fixed(*p, ctx, c);
     }
   ctx.stats.info["exhaustive_message_lengths"] = "0..200 x 3 hashes";
